@@ -45,6 +45,20 @@ fn frame_ok(r: &J, frames: &J) -> bool {
     })).unwrap_or(false)
 }
 
+/// C13: "each carrying its type and the value decoded from the next field": the type description and the value; whether a string keeps
+/// the NUL terminator its field may end with is not stated, name / unit / fixed-point data are not mentioned
+fn sig_args_same(r: &J, e: &J) -> bool {
+    let (ra, ea) = match (r.as_array(), e.as_array()) { (Some(a), Some(b)) => (a, b), _ => return false };
+    ra.len() == ea.len() && ra.iter().zip(ea.iter()).all(|(a, b)| {
+        let ty = ["kind", "w", "cod", "vari", "trai"].iter().all(|k| a[*k] == b[*k]);
+        let same_val = a["val"] == b["val"];
+        let cut = b["val"][0] == "str" && a["val"][0] == "str" && match (a["val"][1].as_array(), b["val"][1].as_array()) {
+            (Some(x), Some(y)) => y.last().and_then(|z| z.as_u64()) == Some(0) && x[..] == y[..y.len() - 1],
+            _ => false,
+        };
+        ty && (same_val || cut)
+    })
+}
 /// suite "slice"
 pub fn slice_cases(default_mode: &str, cases: &[J], out: &mut Out) {
     for case in cases {
@@ -120,7 +134,7 @@ pub fn slice_cases(default_mode: &str, cases: &[J], out: &mut Out) {
                     "filtered" => r["v"] == "filtered" && r["n"] == e["n"] && r["consumed"] == e["consumed"],
                     "skipped" => r["v"] == "skipped" && r["consumed"] == e["consumed"],
                     "found" => r["v"] == "found" && r["dropped"] == e["dropped"],
-                    "ok" => r["v"] == "ok" && (e.get("val").is_none() || (r["val"] == e["val"] && r["consumed"] == e["consumed"])) && (e.get("args").is_none() || r["args"] == e["args"]),
+                    "ok" => r["v"] == "ok" && (e.get("val").is_none() || (r["val"] == e["val"] && r["consumed"] == e["consumed"])) && (e.get("args").is_none() || sig_args_same(&r["args"], &e["args"])),
                     "inc" => r["v"] == "inc" && match e.get("miss").and_then(|m| m.as_u64()) { Some(m) => hint_ok(r, m as usize), None => true },
                     "any" => r["v"] == "ok" || r["v"] == "err",
                     v => r["v"] == v,
